@@ -267,6 +267,12 @@ func (r *Run) apply(op HubOp) bool {
 		}
 		f.Proxies[[2]int{op.X, op.Y}].SetFrozen(op.K == "freeze")
 		f.Proxies[[2]int{op.Y, op.X}].SetFrozen(op.K == "freeze")
+	case "freezeOld":
+		// the connections that exist between x and y become black holes; new ones work
+		if op.X == op.Y {
+			return false
+		}
+		return f.Proxies[[2]int{op.X, op.Y}].FreezeExisting()+f.Proxies[[2]int{op.Y, op.X}].FreezeExisting() > 0
 	case "slow":
 		// the link x->y becomes slow: connections x opens to y take op.Ms longer to get through
 		if op.X == op.Y {
